@@ -1,6 +1,7 @@
 import CogentModel.Json
 import CogentModel.Model.Aln
 import CogentModel.Model.AlnView
+import CogentModel.Model.AlnPred
 open CogentModel CogentModel.IndelMap CogentModel.Aln
 
 def errStr : Err → String
@@ -19,7 +20,17 @@ def rowJ (n : String) (r : Row) : J :=
 def alnJ (a : AlnA) : J := J.arr (a.map fun (n, r) => rowJ n r)
 def denseJ (a : AlnD) : J := J.obj (a.map fun (n, s) => (n, J.str (String.ofList s)))
 
-def parseOp (j : J) : Except String (Option AOp) := do
+/-- the harness' named test predicates on a motif column (tuple of per-row motifs) -/
+def namedPred (n : String) : List (List Char) → Bool :=
+  match n with
+  | "nogap" => fun ms => ms.all fun m => !m.contains '-'
+  | "first-nongap" => fun ms => match ms with | [] => true | m :: _ => !m.contains '-'
+  | "variable" => fun ms => ms.eraseDups.length > 1
+  | "hash" => fun ms => ((ms.map fun m => (m.map fun c => c.toNat).sum).sum + ms.length) % 3 != 0
+  | "all" => fun _ => true
+  | _ => fun _ => false
+
+def parseOp1 (j : J) : Except String (Option AOp) := do
   match ← j.toList with
   | [J.str "slice", a, b] => pure (some (.slice (← a.toOptInt) (← b.toOptInt)))
   | [J.str "int", i] => pure (some (.int (← i.toInt)))
@@ -37,19 +48,36 @@ def parseOp (j : J) : Except String (Option AOp) := do
   | [J.str "keep", locs] => pure (some (.keep (← locs.toListOf (J.toPairOf J.toInt J.toInt))))
   | _ => pure none
 
-def runA (dna : Bool) (a : AlnA) : List (Option AOp) → List J
+/-- ops with the predicate evaluated by the model come first; everything else is an `AOp` -/
+def parseOp (j : J) : Except String (Option AOp2) := do
+  match ← j.toList with
+  | [J.str "no_degenerates_m", chars, ml] => pure (some (.noDegenerates (← chars.toStr).toList (← ml.toNat)))
+  | [J.str "omit_gap_pos_m", gaps, frac, ml] =>
+    pure (some (.omitGapPos (← gaps.toStr).toList (← frac.toRat) (← ml.toNat)))
+  | [J.str "filtered_m", n, ml, drop] => pure (some (.filtered (namedPred (← n.toStr)) (← ml.toNat) (← drop.toBool)))
+  | _ => pure ((← parseOp1 j).map .base)
+
+def isFilter : AOp2 → Bool
+  | .base (.filterMask _) => true
+  | .filtered _ _ _ => true
+  | _ => false
+
+def opErr (op : AOp2) (e : Err) : String :=
+  if isFilter op && e == .notImplemented then "None" else errStr e
+
+def runA (dna : Bool) (a : AlnA) : List (Option AOp2) → List J
   | [] => []
   | none :: _ => []
-  | some op :: ops => match stepA dna a op with
-    | .error e => [J.obj [("err", J.str (match op with | .filterMask _ => "None" | _ => errStr e))]]
+  | some op :: ops => match stepA2 dna a op with
+    | .error e => [J.obj [("err", J.str (opErr op e))]]
     | .ok (a', dna') => alnJ a' :: runA dna' a' ops
 
-def runD (dna : Bool) (a : AlnD) : List (Option AOp) → List J
+def runD (dna : Bool) (a : AlnD) : List (Option AOp2) → List J
   | [] => []
   | none :: _ => []
-  | some op :: ops => match stepD dna a op with
+  | some op :: ops => match stepD2 dna a op with
     | none => []
-    | some (.error e) => [J.obj [("err", J.str (match op with | .filterMask _ => "None" | _ => errStr e))]]
+    | some (.error e) => [J.obj [("err", J.str (opErr op e))]]
     | some (.ok (a', dna')) => denseJ a' :: runD dna' a' ops
 
 def handle (cmd : String) (j : J) : Except String J :=
@@ -75,17 +103,36 @@ def handle (cmd : String) (j : J) : Except String J :=
              ("str", J.str (String.ofList (SeqWrap.str (comp dna) rv.seq)))]
     let stepAll (a : List (String × RowV)) (f : RowV → Except Err RowV) : Except Err (List (String × RowV)) :=
       a.mapM fun (n, rv) => (f rv).map (n, ·)
-    let rec go (a : List (String × RowV)) : List (Option AOp) → List J
-      | some (.slice x y) :: rest => match stepAll a (fun rv => rowSliceV rv x y) with
+    let rec go (a : List (String × RowV)) : List (Option AOp2) → List J
+      | some (.base (.slice x y)) :: rest => match stepAll a (fun rv => rowSliceV rv x y) with
         | .ok a' => J.arr (a'.map fun (n, rv) => rowVJ n rv) :: go a' rest
         | .error e => [J.obj [("err", J.str (errStr e))]]
-      | some .rc :: rest => match stepAll a rowRcV with
+      | some (.base .rc) :: rest => match stepAll a rowRcV with
         | .ok a' => J.arr (a'.map fun (n, rv) => rowVJ n rv) :: go a' rest
         | .error e => [J.obj [("err", J.str (errStr e))]]
       | _ => []
     let a0 : List (String × RowV) := rows.map fun (n, s) =>
       (n, ⟨fromGapped (s.toList.map isGap), SeqWrap.ofString (s.toList.filter (! isGap ·)) true⟩)
     pure (J.obj [("rows", J.arr (J.arr (a0.map fun (n, rv) => rowVJ n rv) :: go a0 ops))])
+  | "f64div" => do
+    -- binary64 quotient of two naturals, exact
+    pure (J.ofRat (f64div (← (← j.get "k").toNat) (← (← j.get "d").toNat)))
+  | "pred" => do
+    -- one predicate object on one motif column (list of per-row motifs)
+    let col := (← (← j.get "col").toListOf J.toStr).map String.toList
+    let chars := (← (← j.get "chars").toStr).toList
+    let ml ← (← j.get "ml").toNat
+    match ← (← j.get "kind").toStr with
+    | "allowed" => pure (J.bool (allowedChars chars col))
+    | "gaps_ok" => pure (J.bool (gapsOk chars (← (← j.get "frac").toRat) ml col))
+    | "gaps_not_ok" => pure (J.bool (gapsNotOk chars (← (← j.get "frac").toRat) ml col))
+    | "gap_run_ok" => pure (J.bool (gapRunOk chars ml 0 (col.flatten)))
+    | k => throw s!"unknown predicate kind {k}"
+  | "windows" => do
+    -- bounds of the alignments `sliding_windows` yields
+    let w := windowBounds (← (← j.get "n").toInt) (← (← j.get "window").toInt) (← (← j.get "step").toInt)
+      (← (← j.get "start").toOptInt) (← (← j.get "end").toOptInt)
+    pure (J.arr (w.map fun p => J.arr [J.num p.1, J.num p.2]))
   | _ => throw s!"unknown command {cmd}"
 
 def main : IO Unit := driverLoop handle
